@@ -83,8 +83,8 @@ def main():
         "version": 1,
         "setup_cmd": "cd /verif/harness && CARGO_NET_OFFLINE=true cargo build --release --offline",
         "hooks": {
-            "guard": "cargo feature `verif` of crate sv-parser-parser",
-            "enable": "the harness crate /verif/harness depends on /repo/sv-parser-parser by path with features=[\"verif\"]; every ./check run does `cargo build --release --offline` there first, which rebuilds whatever changed under /repo",
+            "guard": "cargo feature `verif` of crates sv-parser-parser and sv-parser-pp (the latter only forwards to the former and adds scheduling points)",
+            "enable": "the harness crate /verif/harness depends on /repo/sv-parser-parser and /repo/sv-parser-pp by path with features=[\"verif\"]; every ./check run does `cargo build --release --offline` there first, which rebuilds whatever changed under /repo",
             "baseline_off_cmd": "cd /repo && cargo test --workspace --no-fail-fast --offline",
             "source_commits": hooks_commit,
             "add_only": True,
